@@ -3,7 +3,9 @@
 From Coq Require Import List String ZArith Bool.
 Import ListNotations.
 From KV Require Import Base.Bytes Base.Num Model.Ast Model.Value Model.Eval Model.FilterOpt
-                       Spec.Sem Spec.KeySem Proofs.SemProofs Proofs.FilterOptProofs Proofs.LinkProofs.
+                       Spec.Sem Spec.KeySem Proofs.SemProofs Proofs.FilterOptProofs Proofs.LinkProofs
+                       Model.Storage Model.ScanIO Model.ScanSem Model.Limit Proofs.LimitProofs
+                       Proofs.StorageProofs Proofs.ScanSemProofs Proofs.SelectStarProofs.
 Open Scope string_scope.
 
 (* Evaluation layer: for EVERY expression of the documented core language and EVERY pair on
@@ -12,21 +14,21 @@ Open Scope string_scope.
    structure (no laws assumed); [re_match]/[re_spec] are the regexp oracles of twin and
    reference, assumed to agree. *)
 Theorem eval_refines_sem :
-  forall (fo : fops) (re_match : bytes -> bytes -> res bool) (re_spec : bytes -> bytes -> option bool),
-  (forall p t b, re_spec p t = Some b -> re_match p t = Ok b) ->
+  forall (fo : fops) (re_match : bytes -> bytes -> Value.res bool) (re_spec : bytes -> bytes -> option bool),
+  (forall p t b, re_spec p t = Some b -> re_match p t = Value.Ok b) ->
   forall (k v : bytes) (e : expr) (s : sval fo),
     sem fo re_spec k v e = Some s ->
-    exists x, eval fo re_match k v e = Ok x /\ rel fo x s /\ rtype e = styp fo s.
+    exists x, eval fo re_match k v e = Value.Ok x /\ rel fo x s /\ rtype e = styp fo s.
 Proof. exact eval_refines_sem_lemma. Qed.
 Print Assumptions eval_refines_sem.
 
 (* Filter layer: a WHERE clause that the reference evaluates to b on a pair makes the twin of
    FilterExec.Filter answer b (no error, no other answer) *)
 Theorem filter_refines_reference :
-  forall (fo : fops) (re_match : bytes -> bytes -> res bool) (re_spec : bytes -> bytes -> option bool),
-  (forall p t b, re_spec p t = Some b -> re_match p t = Ok b) ->
+  forall (fo : fops) (re_match : bytes -> bytes -> Value.res bool) (re_spec : bytes -> bytes -> option bool),
+  (forall p t b, re_spec p t = Some b -> re_match p t = Value.Ok b) ->
   forall (k v : bytes) (e : expr) (b : bool),
-    sem fo re_spec k v e = Some (SBool b) -> filter_row fo re_match k v e = Ok b.
+    sem fo re_spec k v e = Some (SBool b) -> filter_row fo re_match k v e = Value.Ok b.
 Proof. exact filter_refines_sem. Qed.
 Print Assumptions filter_refines_reference.
 
@@ -46,6 +48,38 @@ Theorem narrowed_select_is_exact :
     = filter (selects fo re_spec e) st.
 Proof. exact narrowed_select_exact. Qed.
 Print Assumptions narrowed_select_is_exact.
+
+(* END TO END.  `select * where P` over ANY strictly sorted store on which P is evaluable (the
+   reference semantics gives it a truth value on every stored pair): the plan the optimizer
+   builds for the inferred region, with FilterExec.Filter's twin as the filter, drained through
+   the storage twin (cursor Seek / Next, point reads), returns exactly the stored pairs on which
+   P is true -- each once, no other pair, with its stored value, in ascending key order -- and
+   leaves the store unchanged.  Row-at-a-time ... *)
+Theorem select_star_exact_row :
+  forall (fo : fops) (re_match : bytes -> bytes -> Value.res bool) (re_spec : bytes -> bytes -> option bool),
+  (forall p t b, re_spec p t = Some b -> re_match p t = Value.Ok b) ->
+  forall (e : expr) (d : store) (fuel : nat) (l0 : list scall),
+  ssorted d -> (forall kv, In kv d -> evaluable fo re_spec e kv) ->
+  List.length d + plan_keys (select_plan e) < fuel ->
+  exists l, run_read (select_rows true (flt_of fo re_match e) fuel (select_plan e)) (SState d l0 None)
+            = (Storage.Ok (filter (selects fo re_spec e) d), SState d (l0 ++ l)%list None).
+Proof. exact select_star_exact_row_lemma. Qed.
+Print Assumptions select_star_exact_row.
+
+(* ... and in batches of every size B >= 1: the concatenation of the batches is the same list,
+   and no batch before the end is empty *)
+Theorem select_star_exact_batch :
+  forall (fo : fops) (re_match : bytes -> bytes -> Value.res bool) (re_spec : bytes -> bytes -> option bool),
+  (forall p t b, re_spec p t = Some b -> re_match p t = Value.Ok b) ->
+  forall (e : expr) (d : store) (B fuel : nat) (l0 : list scall),
+  1 <= B -> ssorted d -> (forall kv, In kv d -> evaluable fo re_spec e kv) ->
+  List.length d + plan_keys (select_plan e) < fuel ->
+  exists outs l, run_read (select_batches true (flt_of fo re_match e) B fuel (select_plan e)) (SState d l0 None)
+                 = (Storage.Ok outs, SState d (l0 ++ l)%list None)
+                 /\ List.concat outs = filter (selects fo re_spec e) d
+                 /\ Forall (@nonempty kvp) outs.
+Proof. exact select_star_exact_batch_lemma. Qed.
+Print Assumptions select_star_exact_batch.
 
 (* non-vacuity: a predicate with conversion, arithmetic, IN and BETWEEN that the reference
    evaluates on a pair *)
